@@ -69,7 +69,7 @@ func (w *c12World) candidates(op *c12Op, c *rtCall, h *hon) ([]mutation, []int) 
 				"sth.root.len", "sth.root.flip", "sth.ts+1", "sth.size+1", "sth.sig.foreign", "sth.sig.foreign-kind", "sth.sig.flip", "sth.sig.as-sct",
 				"sth.ds.trailing", "sth.ds.trunc", "sth.ds.hashalg", "sth.ds.sigalg", "sth.ds.lenprefix", "sth.ds.empty")
 		case "add-chain", "add-pre-chain":
-			add("signed", "sct.sig.althash", "sct.sig.inner-trailing", "sct.resigned.extreme", "sct.sig.othershard", "sct.ext.max", "sct.ext.over",
+			add("signed", "sct.sig.althash", "sct.sig.inner-trailing", "sct.resigned.extreme", "sct.sig.othershard", "sct.ext.max", "sct.ext.over", "sct.ext.wrapped",
 				"sct.id.random", "sct.id.otherkey", "sct.id.short", "sct.id.long", "sct.id.empty", "sct.ts+1",
 				"sct.sig.foreign", "sct.sig.foreign-kind", "sct.sig.flip", "sct.sig.as-sth", "sct.sig.other-ts", "sct.sig.other-chain", "sct.sig.other-type",
 				"sct.ds.trailing", "sct.ds.trunc", "sct.ds.hashalg", "sct.ds.sigalg", "sct.ds.lenprefix", "sct.ds.empty",
@@ -406,6 +406,11 @@ func (w *c12World) mutate(op *c12Op, c *rtCall, h *hon) *served {
 		ext := make([]byte, 65536) // one more than opaque<0..2^16-1> can hold: nothing can be signed over it
 		obj = sctObj(key, h.sctTS, h.sub.entry, ext[:65535])
 		obj["extensions"] = b64(ext)
+		fail()
+	case "sct.ext.wrapped":
+		// 2^16 extension bytes or more, signed by the log over an input whose length prefix has wrapped around: a
+		// verifier that writes the prefix as uint16(len) agrees with that signature; RFC 6962 has no such SCT
+		obj = sctObj(key, h.sctTS, h.sub.entry, make([]byte, 65536+[]int{0, 1, 300, 65536}[t.Intn(4)]))
 		fail()
 	case "sct.id.random":
 		obj["id"] = b64(sha([]byte("some other log")))
